@@ -58,6 +58,16 @@ CHECKS = {
  "C12": ("exploration", "deterministic flush/compaction driver on production pickers + read-invariance oracle against the MVCC model after every step",
          "No background compactors; PRNG-chosen sequences of commits, flushes, production-picker compactions (as compactor 0/1/2), forced level compactions, back-dated L0->L0, Lmax->Lmax rewrite, snapshots and SetDiscardTs over 6 option sets, normal and managed; after every flush/compaction all keys are read now, through every open snapshot and at sampled managed timestamps >= discardTs and compared with the model; targeted L0->L0 (older oversized table left out) and Lmax->Lmax (>10 MiB stale) families.",
          "Sequential driver (concurrent compactions covered by C01/C05 background histories); GC excluded (C15); table ages are back-dated through a verif-only export.", "4/C12"),
+
+ "C13": ("exploration", "deterministic compaction driver + retention lower-bound oracle (MustRetain) over AllVersions scans; hook cross-check of the discard timestamp",
+         "Driver histories with NumVersionsToKeep 1/2/3/unbounded, deletes, expiry, discard-earlier and merge-operator entries, snapshots and SetDiscardTs; after every flush/compaction the AllVersions scan must contain MustRetain(key, U, keep) where U is an independently computed upper bound of every discard timestamp; the discard ts reported by the compaction hook must not exceed U.",
+         "MustRetain is a lower bound (sound for partial-input compactions), not an exact retention model; merge entries only in normal mode.", "4/C13"),
+ "C14": ("exploration", "deterministic compaction driver + structural validator on DB.Tables()/MANIFEST/directory at quiescent points and after re-open",
+         "Driver histories with several tables per level and split sub-compactions; after every flush/compaction and after close/re-open: levels >=1 sorted, disjoint, no user key split across tables, files == MANIFEST == Tables(), VerifyChecksum, Open succeeds.",
+         "Crash-interrupted histories are validated by C08 with the same validator.", "4/C14"),
+ "C15": ("exploration", "compaction/GC driver + read-invariance oracle around every RunValueLogGC; concurrent histories with a GC loop and delays at GC phases; deterministic open-item scenarios; race detector",
+         "Driver histories with small vlog files and discard statistics, GC at ratios 0.001-0.9, normal and managed, reads compared with the model after every GC/compaction; concurrent recorded histories with GC loop and delays at gc.afterScan/gc.beforeDelete; scenarios: delete-then-GC-then-compact, Items held by an open transaction across a rewrite.",
+         "Two genuine defects are listed in known_findings.json (GC resurrects a deleted key; Txn.Get item unreadable after its vlog file is rewritten).", "4/C15"),
 }
 
 def hooks_commits():
